@@ -172,17 +172,17 @@ __CPROVER_ensures(NV_OK ==> NV_FINITE(NV_T))
 /* lsearchk_t::stpmin() = 10 * machine epsilon (proved: steps/stpmin) */
 #define NV_STPMIN 2.220446049250313e-15
 #define NV_LOOP_lsearchk_get_1 \
-__CPROVER_assigns(i, step_size, *state, nv_ver_counter) \
-__CPROVER_loop_invariant(0 <= i && i <= max_iterations && state0.ver <= nv_ver_counter && state->ver <= nv_ver_counter && nv_ver_counter < UINT64_MAX - 3000000 + i) \
-__CPROVER_loop_invariant(state->eval_ver == state->ver && nv_ver_counter >= __CPROVER_loop_entry(nv_ver_counter) && nv_ver_counter - __CPROVER_loop_entry(nv_ver_counter) <= (uint64_t)i && state->m_status == __CPROVER_loop_entry(state->m_status)) \
-__CPROVER_loop_invariant(i > 0 ==> (state->origin == state0.ver && state->eval_ver == state->ver && state->ver != state0.ver && !state->valid)) \
+__CPROVER_assigns(NV_LOOPVAR_lsearchk_get_1, step_size, *state, nv_ver_counter) \
+__CPROVER_loop_invariant(0 <= NV_LOOPVAR_lsearchk_get_1 && NV_LOOPVAR_lsearchk_get_1 <= max_iterations && state0.ver <= nv_ver_counter && state->ver <= nv_ver_counter && nv_ver_counter < UINT64_MAX - 3000000 + NV_LOOPVAR_lsearchk_get_1) \
+__CPROVER_loop_invariant(state->eval_ver == state->ver && nv_ver_counter >= __CPROVER_loop_entry(nv_ver_counter) && nv_ver_counter - __CPROVER_loop_entry(nv_ver_counter) <= (uint64_t)NV_LOOPVAR_lsearchk_get_1 && state->m_status == __CPROVER_loop_entry(state->m_status)) \
+__CPROVER_loop_invariant(NV_LOOPVAR_lsearchk_get_1 > 0 ==> (state->origin == state0.ver && state->eval_ver == state->ver && state->ver != state0.ver && !state->valid)) \
 /* the FIRST trial step is sanitised: finite and stpmin <= t <= 1 whatever t0 is (a non-finite t0 is replaced, a finite one clamped); \
  * std::clamp(v, lo, hi) = (v < lo) ? lo : (hi < v) ? hi : v returns NaN for NaN */ \
-__CPROVER_loop_invariant(i == 0 ==> (NV_FINITE(step_size) && NV_STPMIN <= step_size && step_size <= 1.0)) \
-__CPROVER_decreases(max_iterations - i)
+__CPROVER_loop_invariant(NV_LOOPVAR_lsearchk_get_1 == 0 ==> (NV_FINITE(step_size) && NV_STPMIN <= step_size && step_size <= 1.0)) \
+__CPROVER_decreases(max_iterations - NV_LOOPVAR_lsearchk_get_1)
 #define NV_LOOP_lsearchk_get_2 \
-__CPROVER_assigns(i, step_size, *state, nv_ver_counter) \
-__CPROVER_loop_invariant(0 <= i && i <= max_iterations && state0.ver <= nv_ver_counter && state->ver <= nv_ver_counter && nv_ver_counter < UINT64_MAX - 2500000 + i) \
-__CPROVER_loop_invariant(state->eval_ver == state->ver && nv_ver_counter >= __CPROVER_loop_entry(nv_ver_counter) && nv_ver_counter - __CPROVER_loop_entry(nv_ver_counter) <= (uint64_t)i && state->m_status == __CPROVER_loop_entry(state->m_status)) \
+__CPROVER_assigns(NV_LOOPVAR_lsearchk_get_2, step_size, *state, nv_ver_counter) \
+__CPROVER_loop_invariant(0 <= NV_LOOPVAR_lsearchk_get_2 && NV_LOOPVAR_lsearchk_get_2 <= max_iterations && state0.ver <= nv_ver_counter && state->ver <= nv_ver_counter && nv_ver_counter < UINT64_MAX - 2500000 + NV_LOOPVAR_lsearchk_get_2) \
+__CPROVER_loop_invariant(state->eval_ver == state->ver && nv_ver_counter >= __CPROVER_loop_entry(nv_ver_counter) && nv_ver_counter - __CPROVER_loop_entry(nv_ver_counter) <= (uint64_t)NV_LOOPVAR_lsearchk_get_2 && state->m_status == __CPROVER_loop_entry(state->m_status)) \
 __CPROVER_loop_invariant(NV_AT(state, &state0, step_size) && state->valid && NV_FINITE(step_size)) \
-__CPROVER_decreases(max_iterations - i)
+__CPROVER_decreases(max_iterations - NV_LOOPVAR_lsearchk_get_2)
